@@ -27,6 +27,30 @@ type c18ForeignV struct { // foreign exception passed by value (comparable struc
 func (f c18ForeignV) Error() string { return f.s }
 func (f c18ForeignV) TypeId() int32 { return f.t }
 
+// foreign exceptions that EMBED a library exception (and so inherit every method of it, exported or
+// not) while overriding TypeId / Error: to the helpers they are foreign exceptions like any other
+type c18ForeignEmbA struct {
+	*thrift.ApplicationException
+	t int32
+	s string
+}
+
+func (f *c18ForeignEmbA) Error() string { return f.s }
+func (f *c18ForeignEmbA) TypeId() int32 { return f.t }
+func (f *c18ForeignEmbA) TypeID() int32 { return f.t }
+func (f *c18ForeignEmbA) Msg() string   { return "" }
+
+type c18ForeignEmbT struct {
+	*thrift.TransportException
+	t int32
+	s string
+}
+
+func (f *c18ForeignEmbT) Error() string { return f.s }
+func (f *c18ForeignEmbT) TypeId() int32 { return f.t }
+func (f *c18ForeignEmbT) TypeID() int32 { return f.t }
+func (f *c18ForeignEmbT) Msg() string   { return "" }
+
 // an error of a NON-comparable dynamic type (a slice): errors.Is never applies == to it, and == between
 // two of them panics.  The backing array always has capacity >= 1 so that each value has an address.
 type c18ForeignS []byte
@@ -72,7 +96,7 @@ func c18Kind(e error) int {
 		return 3
 	case *thrift.ApplicationException:
 		return 4
-	case *c18ForeignP:
+	case *c18ForeignP, *c18ForeignEmbA, *c18ForeignEmbT:
 		return 5
 	case c18ForeignV:
 		return 6
@@ -120,7 +144,11 @@ func c18Build(nodes []V) []error {
 		case 4:
 			e = thrift.NewApplicationException(int32(AsInt(a[1])), string(AsBytes(a[2])))
 		case 5:
-			if AsInt(a[1]) != 0 {
+			if AsInt(a[1]) == 2 {
+				e = &c18ForeignEmbA{thrift.NewApplicationException(6, "embedded"), int32(AsInt(a[2])), string(AsBytes(a[3]))}
+			} else if AsInt(a[1]) == 3 {
+				e = &c18ForeignEmbT{thrift.NewTransportException(2, "embedded"), int32(AsInt(a[2])), string(AsBytes(a[3]))}
+			} else if AsInt(a[1]) != 0 {
 				e = c18ForeignV{int32(AsInt(a[2])), string(AsBytes(a[3]))}
 			} else {
 				e = &c18ForeignP{int32(AsInt(a[2])), string(AsBytes(a[3]))}
@@ -187,6 +215,8 @@ func init() {
 			return Ls(I(3), I(t), Str(m), I(-1), I(0))
 		case 5:
 			return Ls(I(5), I(0), I(t), Str(m))
+		case 7, 8: // foreign, embedding an application / a transport exception
+			return Ls(I(5), I(k-5), I(t), Str(m))
 		default:
 			return Ls(I(5), I(1), I(t), Str(m))
 		}
@@ -206,7 +236,7 @@ func init() {
 		Gen: func(g *Gen) {
 			pick := func(l []string) string { return l[g.R.Intn(len(l))] }
 			// 1. every kind x boundary type ids x messages x prefixes, single object
-			for k := 2; k <= 6; k++ {
+			for k := 2; k <= 8; k++ {
 				for _, t := range tids {
 					for _, m := range msgs {
 						nodes := []V{tnode(k, t, m)}
@@ -276,7 +306,7 @@ func init() {
 						nodes = append(nodes, Ls(I(3), I(t), Str(m), I(j), I(g.R.Intn(2))))
 						proto = true
 					default:
-						nodes = append(nodes, Ls(I(5), I(g.R.Intn(2)), I(t), Str(m)))
+						nodes = append(nodes, Ls(I(5), I(g.R.Intn(4)), I(t), Str(m)))
 					}
 					isProto = append(isProto, proto)
 				}
